@@ -27,8 +27,20 @@ def sign_fields(prog):
                                 for x in ast.walk(tg):
                                     if isinstance(x, ast.Attribute) and isinstance(x.value, ast.Name) and x.value.id == selfname:
                                         out.add(x.attr)
+    # fallback / union: the attribute that indexes a ['+', '-'] table in any method (the exporter)
+    for m in cls.methods.values():
+        signtabs = set()
+        for n in ast.walk(m.node):
+            if isinstance(n, ast.Assign) and isinstance(n.value, (ast.List, ast.Tuple)) and \
+                    sorted(getattr(x, "value", None) for x in n.value.elts if isinstance(x, ast.Constant)) == ["+", "-"] and isinstance(n.targets[0], ast.Name):
+                signtabs.add(n.targets[0].id)
+        for n in ast.walk(m.node):
+            if isinstance(n, ast.Subscript) and isinstance(n.value, ast.Name) and n.value.id in signtabs:
+                for x in ast.walk(n.slice):
+                    if isinstance(x, ast.Attribute) and isinstance(x.value, ast.Name) and m.params and x.value.id == m.params[0]:
+                        out.add(x.attr)
     if not out:
-        raise AnalysisError("cannot identify the sign field of Stabilizer (no store under a '-' test in __init__)")
+        raise AnalysisError("cannot identify the sign field of Stabilizer (neither a store under a '-' test in __init__ nor an index into a ['+','-'] table)")
     return out, cls
 
 
